@@ -609,7 +609,36 @@ enum Mix {
     Smooth,
 }
 
+/// Complex members whose real part is poor (a polynomial of degree <= 1, possibly zero) and whose
+/// imaginary part carries everything else: a stopping test that looks at one part only settles on
+/// the real part long before the imaginary part has converged. (The generic complex members have
+/// coefficients with both parts of similar size, so both parts converge together.)
+fn make_imaginary_rich(rng: &mut Rng, fun: &mut Fun) {
+    let zero_real = rng.bool();
+    for (k, c) in fun.poly.iter_mut().enumerate() {
+        if k >= 2 || zero_real {
+            *c = C::new(0.0, c.re + c.im);
+        }
+    }
+    for (c, r) in fun.exps.iter_mut() {
+        *c = C::new(0.0, c.norm());
+        *r = C::new(r.re, 0.0);
+    }
+    fun.sins.clear();
+    for c in fun.cheb.iter_mut().skip(if zero_real { 0 } else { 2 }) {
+        *c = C::new(0.0, c.re + c.im);
+    }
+}
+
 fn gen_fun_interval(rng: &mut Rng, complex: bool, a: f64, b: f64, mix: Mix, maxdeg: usize) -> Fun {
+    let mut fun = gen_fun_interval_generic(rng, complex, a, b, mix, maxdeg);
+    if complex && rng.chance(0.15) {
+        make_imaginary_rich(rng, &mut fun);
+    }
+    fun
+}
+
+fn gen_fun_interval_generic(rng: &mut Rng, complex: bool, a: f64, b: f64, mix: Mix, maxdeg: usize) -> Fun {
     let mut fun = Fun::zero(complex);
     let mid = 0.5 * (a + b);
     let u = rng.f();
@@ -672,6 +701,14 @@ fn gen_fun_interval(rng: &mut Rng, complex: bool, a: f64, b: f64, mix: Mix, maxd
 }
 
 fn gen_fun_weighted(rng: &mut Rng, complex: bool, w: Weight) -> Fun {
+    let mut fun = gen_fun_weighted_generic(rng, complex, w);
+    if complex && rng.chance(0.15) {
+        make_imaginary_rich(rng, &mut fun);
+    }
+    fun
+}
+
+fn gen_fun_weighted_generic(rng: &mut Rng, complex: bool, w: Weight) -> Fun {
     let mut fun = Fun::zero(complex);
     let (dmax, kr, wr): (usize, (f64, f64), (f64, f64)) = match w {
         Weight::Laguerre => (19, (-1.0, 0.4), (0.05, 1.5)),
@@ -1040,6 +1077,48 @@ fn run_simpson(rep: &mut Report, fun: &Fun, a: f64, b: f64, tol: f64, tight_nmax
     note_case(rep, &c, fun, &obs, note_in_class, nontrivial, &|j| j.set("exact_integral", cj(exact)).set("error", err.unwrap_or(f64::NAN)).set("textbook_calls", n_ref).set("hard_accuracy_bound_applies", in_class));
 }
 
+/// Polynomials for which two successive entries of the first Romberg column (composite trapezoid
+/// sums with m and 2m panels) are EXACTLY equal although nothing has converged: on [-1,1] with small
+/// dyadic coefficients every sample and every sum is exact in f64, and T_2m = T_m iff the midpoint
+/// sum M_m equals T_m, which one coefficient (that of x^2) can enforce exactly because
+/// T_m(x^2) - M_m(x^2) = 2/m^2 is dyadic. Exactness for degree <= 2n-1 does not care; an
+/// implementation that treats a vanishing Richardson correction as convergence does.
+fn case_romberg_equal_entries(rng: &mut Rng, rep: &mut Report) {
+    let m = 1usize << rng.below(3); // 1, 2 or 4 panels
+    let n_min = (2 * m).trailing_zeros() as usize + 2; // rows needed so that T_2m is in the table and one more
+    let n = n_min + rng.below(3);
+    let deg = (2 * n - 1).min(4 + 2 * rng.below(3)).max(3);
+    let complex = rng.chance(0.3);
+    let mut fun = Fun::zero(complex);
+    // small dyadic coefficients (k/8), x^2 coefficient fixed below
+    let mut c: Vec<f64> = (0..=deg).map(|_| rng.int(-16, 16) as f64 / 8.0).collect();
+    if c[deg] == 0.0 {
+        c[deg] = 1.0;
+    }
+    c[2] = 0.0;
+    let eval = |c: &[f64], x: f64| c.iter().rev().fold(0.0, |acc, ck| acc * x + ck);
+    let h = 2.0 / m as f64;
+    let trap = |c: &[f64]| -> f64 {
+        let mut s = 0.5 * (eval(c, -1.0) + eval(c, 1.0));
+        for k in 1..m {
+            s += eval(c, -1.0 + h * k as f64);
+        }
+        s * h
+    };
+    let mid = |c: &[f64]| -> f64 { (0..m).map(|k| eval(c, -1.0 + h * (k as f64 + 0.5))).sum::<f64>() * h };
+    let mut q = vec![0.0; deg + 1];
+    q[2] = 1.0;
+    let dq = trap(&q) - mid(&q);
+    c[2] = -(trap(&c) - mid(&c)) / dq;
+    let equal = trap(&c) == mid(&c);
+    rep.count("romberg/equal_entry_cases", 1);
+    if equal && c.iter().any(|v| *v != 0.0) {
+        rep.count(&format!("romberg/equal_entry_cases_with_T{}_equal_T{}", m, 2 * m), 1);
+    }
+    fun.poly = c.iter().map(|v| if complex { C::new(*v, -0.5 * *v) } else { C::new(*v, 0.0) }).collect();
+    run_romberg(rep, &fun, -1.0, 1.0, n);
+}
+
 fn run_romberg(rep: &mut Report, fun: &Fun, a: f64, b: f64, n: usize) {
     let c = Call { rt: Rt::Romberg, a, b, tol: 0.0, n };
     let (exact, mag) = fun.integral(a, b);
@@ -1069,7 +1148,7 @@ fn run_romberg(rep: &mut Report, fun: &Fun, a: f64, b: f64, n: usize) {
 
 // ------------------------------------------------------------------ Err cases
 
-const ERR_KINDS: [&str; 5] = ["reversed-interval", "empty-interval", "negative-tolerance", "reversed-interval-and-negative-tolerance", "empty-interval-at-zero"];
+const ERR_KINDS: [&str; 7] = ["reversed-interval", "empty-interval", "negative-tolerance", "reversed-interval-and-negative-tolerance", "empty-interval-at-zero", "empty-interval-from-minus-zero-to-plus-zero", "empty-interval-from-plus-zero-to-minus-zero"];
 
 fn run_err_case(rep: &mut Report, rng: &mut Rng, rt: Rt, kind: usize, complex: bool) {
     let name = rt.name();
@@ -1081,7 +1160,10 @@ fn run_err_case(rep: &mut Report, rng: &mut Rng, rt: Rt, kind: usize, complex: b
         1 => (a0, a0, tol0),
         2 => (a0, b0, neg_tol),
         3 => (b0, a0, neg_tol),
-        _ => (0.0, 0.0, tol0),
+        4 => (0.0, 0.0, tol0),
+        // -0.0 == +0.0: both orders are the empty interval
+        5 => (-0.0, 0.0, tol0),
+        _ => (0.0, -0.0, tol0),
     };
     let fun = if rt.has_interval() { gen_fun_interval(rng, complex, a0, b0, Mix::All, 5) } else { gen_fun_weighted(rng, complex, rt.weight().unwrap()) };
     let n = if rt == Rt::Simpson { 60 } else { 1 + rng.below(8) };
@@ -1240,6 +1322,9 @@ fn case_simpson_smooth(rng: &mut Rng, rep: &mut Report) {
 }
 
 fn case_romberg(rng: &mut Rng, rep: &mut Report) {
+    if rng.chance(0.08) {
+        return case_romberg_equal_entries(rng, rep);
+    }
     let complex = rng.chance(0.3);
     let (a, b) = gen_interval(rng);
     // mostly 1..12 rows; a few cases with 13..20 rows (up to 2^19 + 1 evaluations): the property
@@ -1436,6 +1521,7 @@ pub fn thresholds(ctx: &Ctx, rep: &Report) -> Vec<Threshold> {
     need("tanh-sinh in-class cases in the sqrt band (1e-11 <= tol < 1e-8)".into(), 2000.0, "tanhsinh/in_class_sqrt_band".into());
     need("Simpson runs whose work was compared with the textbook scheme on >= 50 panels".into(), 4000.0, "simpson/work_compared_with_50_or_more_panels".into());
     need("Simpson in-class cases with n_max = depth bound + 1 or + 2".into(), 2000.0, "simpson/in_class_tight_n_max".into());
+    need("Romberg cases with two exactly equal successive trapezoid sums that have not converged".into(), 2_000.0, "romberg/equal_entry_cases".into());
     need("Romberg cases with degree 2n-2 or 2n-1".into(), 5000.0, "romberg/top_degree_cases".into());
     t
 }
